@@ -261,7 +261,7 @@ func (c *checkSchema) ensureShortcutKeysAreValid(node *ischema.ObjectNode) error
 		if err != nil {
 			return lexeme.NewError(v.Lex, err)
 		}
-		actualType := actualRootType(s, c.rootSchema)
+		actualType := actualRootType(s, c.rootSchema, map[*ischema.ISchema]struct{}{})
 
 		if actualType != json.TypeString {
 			return lexeme.NewError(
@@ -273,11 +273,17 @@ func (c *checkSchema) ensureShortcutKeysAreValid(node *ischema.ObjectNode) error
 	return nil
 }
 
-func actualRootType(s, root *ischema.ISchema) json.Type {
+func actualRootType(s, root *ischema.ISchema, visited map[*ischema.ISchema]struct{}) json.Type {
 	t := s.RootNode().Type()
 	if t != json.TypeMixed {
 		return t
 	}
+
+	// Types can refer to each other (or to themselves) in a loop.
+	if _, ok := visited[s]; ok {
+		return json.TypeMixed
+	}
+	visited[s] = struct{}{}
 
 	// mixed type for example: @aaa | @bbb
 	if n, ok := s.RootNode().(*ischema.MixedValueNode); ok {
@@ -288,7 +294,7 @@ func actualRootType(s, root *ischema.ISchema) json.Type {
 			if err != nil {
 				return json.TypeMixed
 			}
-			tt = actualRootType(ss, root)
+			tt = actualRootType(ss, root, visited)
 			types[tt] = struct{}{}
 		}
 		if len(types) == 1 { // all USER TYPES (example: @aaa | @bbb) have the same type (example: string)
